@@ -15,8 +15,8 @@
 #endif
 
 namespace zapi {
-enum { OP_CONSTRUCT = 0, OP_VIEW, OP_AT, OP_COPY, OP_MOVE, OP_COPY_ASSIGN, OP_MOVE_ASSIGN, OP_CONFIG, OP_DUMP, OP_LOAD, OP_CONVERT, OP_COUNT };
-static const char * opname[OP_COUNT] = {"construct", "view", "at", "copy", "move", "copy-assign", "move-assign", "configuration", "dump", "load", "convert"};
+enum { OP_CONSTRUCT = 0, OP_VIEW, OP_AT, OP_COPY, OP_MOVE, OP_COPY_ASSIGN, OP_MOVE_ASSIGN, OP_CONFIG, OP_DUMP, OP_LOAD, OP_CONVERT, OP_EXTENTS, OP_COUNT };
+static const char * opname[OP_COUNT] = {"construct", "view", "at", "copy", "move", "copy-assign", "move-assign", "configuration", "dump", "load", "convert", "construct-from-extents"};
 constexpr bool on(int k)
 {
     return API_ONLY < 0 || API_ONLY == k;
@@ -161,6 +161,21 @@ inline void op_convert(vh::Rng & rng, const model::Node & m)
 }
 
 template <class Z>
+inline void op_extents(vh::Rng & rng, const model::Node & m)
+{
+    if constexpr (Z::has_extents_form) {
+        // a pack that ends with the row-major layer's extents (the layer sizes its own storage), once as a temporary
+        // and once as a named object, the two ways user code writes it
+        typename Z::field_t a = Z::template make_from_extents<>();
+        Z::fill(a);
+        check<Z>(a, m, rng, OP_EXTENTS);
+        typename Z::field_t b = Z::template make_from_named_extents<>();
+        Z::fill(b);
+        check<Z>(b, m, rng, OP_EXTENTS);
+    }
+}
+
+template <class Z>
 inline void drive_c13()
 {
     if (!vh::selected(Z::name())) return;
@@ -178,6 +193,7 @@ inline void drive_c13()
     if constexpr (on(OP_DUMP)) op_dump<Z>(rng, *m);
     if constexpr (on(OP_LOAD)) op_load<Z>(rng, *m);
     if constexpr (on(OP_CONVERT)) op_convert<Z>(rng, *m);
+    if constexpr (on(OP_EXTENTS)) op_extents<Z>(rng, *m);
     vh::stat("stacks");
     if (Z::depth >= 2) vh::nontrivial(vh::fnv(Z::name()));
     vh::sample("api", std::string(Z::type_string()) + ": " + (Z::has_partner ? "11" : "10") + " members compiled and run", 3);
